@@ -1,5 +1,6 @@
 """C05 — kernel property: see DESIGN.md section 5 and harness/kprop.py."""
 from harness import kgen, kprop
+from harness.common import scenario_replay as common_scenario_replay
 
 PID = 'C05'
 
@@ -11,6 +12,8 @@ def run(ctx, out):
 def replay(ctx, rep):
     from harness import krun
     case = rep['case']
+    if case.get('scenario'):
+        return common_scenario_replay(ctx, rep, {'reactive': reactive_scenarios})
     r = krun.Run(case, ['C05']).run()
     for s in r.steps:
         print(s['op'], '->', s['outcome'])
@@ -19,3 +22,137 @@ def replay(ctx, rep):
         return 1
     print('not reproduced')
     return 0
+
+
+# ---------------------------------------------------------------------------
+# changes made from inside a notification callback are changes too: each is reported exactly once
+# to every observer of the object (oracle on the implementation only; the kernel model has no callbacks)
+
+def reactive_scenarios(ctx, out):
+    from harness import common
+    common.use_repo()
+    from pyecore import ecore as E
+    from pyecore.notification import EObserver, Kind
+    rng = common.rng_for(ctx.seed, 'C05:reactive')
+    n = 60 if ctx.tier != 'thorough' else 1500
+    A = E.EClass('A')
+    A.eStructuralFeatures.append(E.EAttribute('name', E.EString))
+    A.eStructuralFeatures.append(E.EAttribute('count', E.EInt))
+    A.eStructuralFeatures.append(E.EAttribute('tags', E.EString, upper=-1))
+    A.eStructuralFeatures.append(E.EAttribute('bag', E.EInt, upper=-1, unique=False))
+
+    class Mirror(EObserver):
+        def __init__(self, obj):
+            super().__init__()
+            self.one = {'name': obj.name, 'count': obj.count}
+            self.many = {'tags': list(obj.tags), 'bag': list(obj.bag)}
+            self.n = 0
+            self.observe(obj)
+
+        def notifyChanged(self, nt):
+            self.n += 1
+            f = nt.feature.name
+            if nt.kind in (Kind.SET, Kind.UNSET):
+                self.one[f] = nt.new
+            elif nt.kind is Kind.ADD:
+                if not (f == 'tags' and nt.new in self.many[f]):
+                    self.many[f].append(nt.new)
+            elif nt.kind is Kind.ADD_MANY:
+                for v in nt.new:
+                    if not (f == 'tags' and v in self.many[f]):
+                        self.many[f].append(v)
+            elif nt.kind is Kind.REMOVE:
+                if nt.old in self.many[f]:
+                    self.many[f].remove(nt.old)
+            elif nt.kind is Kind.REMOVE_MANY:
+                for v in nt.old:
+                    if v in self.many[f]:
+                        self.many[f].remove(v)
+
+    class Reactor(EObserver):
+        """reacts to a change by an ordinary, accepted change (terminating rules)"""
+        def __init__(self, obj, rules):
+            super().__init__()
+            self.rules = rules
+            self.observe(obj)
+
+        def notifyChanged(self, nt):
+            o, f = nt.notifier, nt.feature.name
+            if 'strip' in self.rules and f == 'name' and nt.kind is Kind.SET and nt.new != nt.new.strip():
+                o.name = nt.new.strip()
+            if 'even' in self.rules and f == 'count' and nt.kind is Kind.SET and nt.new % 2:
+                o.count = nt.new + 1
+            if 'lower' in self.rules and f == 'tags' and nt.kind is Kind.ADD and nt.new.lower() not in o.tags:
+                o.tags.append(nt.new.lower())
+            if 'down' in self.rules and f == 'bag' and nt.kind is Kind.ADD and nt.new > 0:
+                o.bag.append(nt.new - 1)
+            if 'cross' in self.rules and f == 'name' and nt.kind is Kind.SET:
+                o.count = len(nt.new) * 2
+            if 'unlower' in self.rules and f == 'tags' and nt.kind is Kind.REMOVE and nt.old.upper() in o.tags \
+                    and nt.old.upper() != nt.old:
+                o.tags.remove(nt.old.upper())
+
+    names = ['a', ' b ', 'Cc', '  d', '']
+    tags = ['x', 'Y', 'Zz', 'y', 'q']
+    cnt = nested = 0
+    for it in range(n):
+        o = A()
+        rules = set(r for r in ('strip', 'even', 'lower', 'down', 'cross', 'unlower') if rng.random() < 0.5)
+        mirror = Mirror(o)            # registered first: told first about each change
+        Reactor(o, rules)
+        second = Mirror(o)            # registered last: sees nested changes before the outer one; counts only
+        hist = []
+        for step in range(rng.randrange(2, 9)):
+            k = rng.choice(['name', 'count', 'tag+', 'tag-', 'bag+', 'bag-', 'tags=', 'unset'])
+            before = mirror.n
+            try:
+                if k == 'name':
+                    v = rng.choice(names); o.name = v
+                elif k == 'count':
+                    v = rng.randrange(0, 6); o.count = v
+                elif k == 'tag+':
+                    v = rng.choice(tags); o.tags.append(v)
+                elif k == 'tag-':
+                    v = rng.choice(tags)
+                    if v in o.tags:
+                        o.tags.remove(v)
+                elif k == 'bag+':
+                    v = rng.randrange(0, 4); o.bag.append(v)
+                elif k == 'bag-':
+                    v = rng.randrange(0, 4)
+                    if v in o.bag:
+                        o.bag.remove(v)
+                elif k == 'tags=':
+                    v = rng.sample(tags, 2); o.tags.extend(v)
+                else:
+                    v = None; o.name = None
+                raised = None
+            except Exception as e:  # noqa
+                raised = type(e).__name__
+            hist.append([k, v, raised])
+            cnt += 1
+            nested += max(0, mirror.n - before - 1)
+            real = {'name': o.name, 'count': o.count, 'tags': sorted(o.tags), 'bag': sorted(o.bag)}
+            seen = {'name': mirror.one['name'], 'count': mirror.one['count'],
+                    'tags': sorted(mirror.many['tags']), 'bag': sorted(mirror.many['bag'])}
+            case = {'scenario': 'reactive', 'seed': ctx.seed, 'tier': ctx.tier, 'rules': sorted(rules), 'history': [list(h) for h in hist]}
+            if real != seen:
+                d = sorted(kk for kk in real if real[kk] != seen[kk])
+                out.fail({'property': 'C05', 'clause': 'change-from-callback-not-mirrored', 'features': d},
+                         f'observer told first about every change holds {[(kk, seen[kk]) for kk in d]} but the object has '
+                         f'{[(kk, real[kk]) for kk in d]} after {hist[-1]} with reacting rules {sorted(rules)}', case)
+                break
+            if mirror.n != second.n:
+                out.fail({'property': 'C05', 'clause': 'observers-told-different-number-of-changes'},
+                         f'first observer received {mirror.n} notifications, last observer {second.n} after {hist[-1]}', case)
+                break
+    out.coverage['reactive_calls'] = cnt
+    out.coverage['reactive_nested_changes'] = nested
+
+
+_kernel_run = run
+
+
+def run(ctx, out):   # noqa: F811
+    _kernel_run(ctx, out)
+    reactive_scenarios(ctx, out)
